@@ -121,6 +121,8 @@ def archive_to_fsobj(src_tar):
         elif member.isfifo():
             yield fsFifo(location, **d)
         elif member.isdev():
+            # the tar header keeps only the permission bits; fsDev wants the device type in the mode
+            d["mode"] |= stat.S_IFCHR if member.ischr() else stat.S_IFBLK
             d["major"] = int(member.devmajor)
             d["minor"] = int(member.devminor)
             yield fsDev(location, **d)
